@@ -34,7 +34,7 @@ import vlib
 from vlib import fs2b, b2fs, ints
 
 ID = "C09"
-GEN = ["MasksGen", "BnafGen", "Wrappers", "NetGen"]
+GEN = ["MasksGen", "BnafGen", "Wrappers", "NetGen", "BnafInitGen"]
 RULE = ("exhaustive size grid: rank_based_mask on integer rank vectors of length 0..4 with repeated/negative ranks, both eq; "
         "block masks for block shapes (1..3)x(1..3), n_blocks 1..4, k in -2..2; MaskedAutoregressive for dim 1..5, cond_dim None/1/3, "
         "width 1..7, depth 0..3, transformer Affine (2 params) / RationalQuadraticSpline(knots=2) (8 params): every Where.cond mask "
@@ -442,6 +442,9 @@ def corr(c, tier, rng):
     # --- the GENERATED transform / inverse of Coupling / MaskedAutoregressive (Gen/NetGen.lean) against real objects
     from props import netgen
     netgen.corr_gen(c, tier, rng, light=(tier == "quick"))
+    # --- the GENERATED `BlockAutoregressiveNetwork.__init__` (Gen/BnafInitGen.lean) against real constructions
+    from props import bnafld
+    bnafld.corr_init(c, tier, rng)
 
 
 # ------------------------------------------------------------------ the property's oracle on the real code only
